@@ -137,6 +137,24 @@ mut("c14-empty-line-not-pausing", "C14", "C14.R2", (EL, "find_next_line_break_po
 mut("c14-prev-remover-reaches-further", "C14", "C14.R3", (PL, "return (line_break_pos + 1, byte_pos);", "return (line_break_pos - 1, byte_pos);"))
 mut("c14-dedent-start-unclamped", "C14", "C14.R4", (BI, "let start = std::cmp::min(current_pos + indent_ofs, indent_pos);", "let start = current_pos + indent_ofs;"))
 
+# ---------------------------------------------------------------- C08
+mut("c08-start-mismatch-not-reexamined", "C08", "C08.R1", (TK, "get_state(c, delimiter_start, delimiter_end, State::Text)", "(None, State::Text)"))
+mut("c08-end-mismatch-not-reexamined", "C08", "C08.R1", (TK, "get_state(c, delimiter_start, delimiter_end, State::InDelimiter)", "(None, State::InDelimiter)"))
+mut("c08-end-mismatch-checks-start-delimiter", "C08", "C08.R1", (TK, "get_state(c, delimiter_start, delimiter_end, State::InDelimiter)", "match check_delimiter_start(c, delimiter_start) {\n                            State::DelimiterStart(_) => (None, State::InDelimiter),\n                            _ => (None, State::InDelimiter),\n                        }"))
+
+# ---------------------------------------------------------------- C09
+mut("c09-newline-not-separator-after-value", "C09", "C09.R1", (EP, "State::NameBegin => match current_char {\n                                ' ' | '\\n' => {}", "State::NameBegin => match current_char {\n                                ' ' => {}"))
+mut("c09-newline-not-separator-before-eq", "C09", "C09.R1", (EP, "State::NameEnd => match current_char {\n                                ' ' | '\\n' => {}", "State::NameEnd => match current_char {\n                                ' ' => {}"))
+mut("c09-newline-not-separator-after-eq", "C09", "C09.R1", (EP, "State::ValueBegin => match current_char {\n                                ' ' | '\\n' => {}", "State::ValueBegin => match current_char {\n                                ' ' => {}"))
+mut("c09-quoted-value-ends-at-newline", "C09", "C09.R1", (EP, "if current_char == '\"' {\n                                    pairs.last_mut().unwrap().1 = Some(&target[start..pos]);", "if current_char == '\"' || current_char == '\\n' {\n                                    pairs.last_mut().unwrap().1 = Some(&target[start..pos]);"))
+mut("c09-eq-ignored-in-name", "C09", "C09.R1", (EP, "                                '=' => {\n                                    pairs.push((&target[start..pos], None));\n                                    state = State::ValueBegin\n                                }", "                                '=' => {}"))
+mut("c09-value-includes-quote", "C09", "C09.R1", (EP, "state = State::ValueWithDoubleQuote(pos + 1);", "state = State::ValueWithDoubleQuote(pos);"))
+mut("c09-trim-matches-back", "C09", "C09.R3", (EP, "let target = target\n                    .strip_prefix(element.delimiter_start)\n                    .unwrap_or(target);", "let target = target.trim_start_matches(element.delimiter_start);"))
+mut("c09-attrs-reversed", "C09", "C09.R1", (EP, "pairs[1..]\n                    .iter()\n                    .map(", "pairs[1..]\n                    .iter()\n                    .rev()\n                    .map("))
+mut("c09-single-quote-closes-double", "C09", "C09.R1", (EP, "State::ValueWithSingleQuote(start) => {\n                                if current_char == '\\'' {", "State::ValueWithSingleQuote(start) => {\n                                if current_char == '\\'' || current_char == '\"' {"))
+mut("c01-empty-name-accepted-again", "C01", "C01", (EP, "if last_state == State::ParseError || pairs.is_empty() {", "if last_state == State::ParseError && !pairs.is_empty() {"))
+mut("c09-tab-is-separator-in-name-only", "C09", "C09.R1", (EP, "State::Name(start) => match current_char {\n                                ' ' | '\\n' => {", "State::Name(start) => match current_char {\n                                ' ' | '\\n' | '*' => {"))
+
 # ---------------------------------------------------------------- benign variants (every rule silent)
 benign("b-c05-single-expression", (TL, "if self.current_time < expires.unwrap() {\n            return false;\n        }\n\n        true", "self.current_time >= expires.unwrap()"))
 benign("b-c05-format-shorthand", (TL, 'parse_from_str(&expires_str, "%Y-%m-%d %H:%M:%S %z")', 'parse_from_str(&expires_str, "%F %T %z")'))
@@ -152,6 +170,10 @@ benign("b-finder-commuted-bounds", (LB, "if cursor >= bytes.len() || cursor == 0
 benign("b-empty-line-negated-eq", (EL, "if bytes.get(byte_pos) != Some(&b'\\n') {", "if !(bytes.get(byte_pos) == Some(&b'\\n')) {"))
 benign("b-unwrap-guard-two-lines", (UB, "if start > end {", "if start >= end {"))
 benign("b-format-let-introduced", (FM, "        let range = format_block(content, *pos, formatters);\n        ranges.push(range);", "        let p = *pos;\n        let range = format_block(content, p, formatters);\n        ranges.push(range);"))
+
+benign("b-tokenizer-redispatch-inlined", (TK, "get_state(c, delimiter_start, delimiter_end, State::Text)", "match check_delimiter_start(c, delimiter_start) {\n                            State::DelimiterStart(chars) => (Some(TokenKind::Text), State::DelimiterStart(chars)),\n                            _ => (None, State::Text),\n                        }"))
+
+benign("b-parser-if-chain", (EP, "State::ValueWithNoQuote => {\n                                if current_char == ' ' || current_char == '\\n' {\n                                    state = State::NameBegin\n                                }\n                            }", "State::ValueWithNoQuote => match current_char {\n                                ' ' | '\\n' => state = State::NameBegin,\n                                _ => {}\n                            },"))
 
 with open(os.path.join(os.path.dirname(os.path.abspath(__file__)), "mutants.json"), "w") as f:
     json.dump(C, f, indent=1)
